@@ -197,6 +197,79 @@ namespace xv
     XV_C1(c_tanh, xs::tanh(a))
     XV_C2(c_pow, xs::pow(a, b))
 
+    // other spellings of the complex batch class
+    struct c_preinc
+    {
+        template <class Z>
+        static Z f(Z a) { ++a; return a; }
+    };
+    struct c_postdec
+    {
+        template <class Z>
+        static Z f(Z a) { a--; return a; }
+    };
+    struct c_add_real
+    {
+        template <class Z, class W>
+        static Z f(Z const& a, W const& b) { return a + b.real(); } // complex batch + real batch
+    };
+    struct c_mul_real
+    {
+        template <class Z, class W>
+        static Z f(Z const& a, W const& b) { return b.real() * a; } // real batch * complex batch
+    };
+    struct c_sub_assign
+    {
+        template <class Z, class W>
+        static Z f(Z a, W const& b) { a -= b; return a; }
+    };
+    struct c_div_assign
+    {
+        template <class Z, class W>
+        static Z f(Z a, W const& b) { a /= b; return a; }
+    };
+    struct c_get
+    {
+        template <class Z>
+        static Z f(Z const& a)
+        {
+            typename Z::value_type v[Z::size];
+            for (size_t k = 0; k < Z::size; ++k)
+                v[k] = a.get(k);
+            return Z::load_unaligned(v);
+        }
+    };
+    struct c_bcast
+    {
+        template <class Z>
+        static Z f(Z const& a)
+        {
+            typename Z::value_type v[Z::size], w[Z::size];
+            a.store_unaligned(v);
+            for (size_t k = 0; k < Z::size; ++k)
+            {
+                Z b(v[k]); // broadcast of one complex scalar
+                w[k] = b.get(k);
+            }
+            return Z::load_unaligned(w);
+        }
+    };
+    struct c_scalar_mul
+    {
+        template <class Z>
+        static Z f(Z const& a)
+        {
+            typename Z::value_type v[Z::size], w[Z::size];
+            a.store_unaligned(v);
+            for (size_t k = 0; k < Z::size; ++k)
+            {
+                Z r = Z(v[k]) * typename Z::value_type(2, -3); // complex batch * complex scalar
+                w[k] = r.get(k);
+            }
+            return Z::load_unaligned(w);
+        }
+    };
+
     template <class T>
     void reg_c()
     {
@@ -233,6 +306,15 @@ namespace xv
         creg<T, c_tan, 0>("c.tan");
         creg<T, c_tanh, 0>("c.tanh");
         creg<T, c_pow, 4>("c.pow");
+        creg<T, c_preinc, 0>("c.incr.op");
+        creg<T, c_postdec, 0>("c.decr.op");
+        creg<T, c_add_real, 1>("c.add.real");
+        creg<T, c_mul_real, 1>("c.mul.real");
+        creg<T, c_sub_assign, 1>("c.sub.assign");
+        creg<T, c_div_assign, 1>("c.div.assign");
+        creg<T, c_get, 0>("c.get");
+        creg<T, c_bcast, 0>("c.broadcast");
+        creg<T, c_scalar_mul, 0>("c.mul.scalar");
         cmemreg<T, 0>("c.load_unaligned");
         cmemreg<T, 1>("c.load_aligned");
         cmemreg<T, 2>("c.store_unaligned");
